@@ -141,6 +141,8 @@ def check_cases(cases: list[dict], rep: Report, known: dict) -> None:
     b = Batch()
     work = []
     for c in cases:
+        if rep.stop():
+            break
         a, r1, r2, m = (wire.build_raw(c[k]) for k in ("a", "b", "c", "m"))
         ia = b.ask(f"F0 beq {c['a']} {c['b']}")
         ib = b.ask(f"F0 beq {c['a']} {c['m']}")
